@@ -86,6 +86,12 @@ CHECKS = {
         text='All ASTs over {command, if with up to 3 conditional arms and optional else, for over 0..2 words, while, break, continue} with up to 4 (thorough 5: about 21 k trees) statement nodes and depth <= 3 are rendered in both spellings with two layouts; every condition is a helper whose answers are scripted and each dynamic evaluation is a choice point (all answer strings of up to 4 (6) answers that the run consumes, false beyond the prefix). The marker / condition-evaluation trace of the real binary must equal the reference interpreter (first true branch only, re-test before every iteration, loop variable binding, break/continue on the innermost loop). Negatives: every small tree with one block keyword line deleted must give a diagnostic and a non-zero status.',
         note='Tree size, answer-string length and word lists are the bound; conditions and commands are helpers.',
         ref='DESIGN.md §4 C14'),
+    'C15': dict(
+        engine='E1 bounded-exhaustive script generation on the real binary',
+        technique='bounded-exhaustive enumeration of argument lists x reference forms x frames, function names x headers x arities, source chains, and all bodies of status-relevant lines up to a length, executed by the real binary against a reference model of frames, persistence and status propagation',
+        text='All argument lists of length 0..2 (thorough 0..3) over {x, "a b", $, \'q\', empty} x 11 reference forms ($0 $1 ${2} $3 $9 $@ "$@", glued and quoted forms) in a script frame and in a function frame; function names f, g-h, _k x both header spellings x arities 0..2 defined in the script or in a sourced file; source chains of depth 1..3 defining a variable, an alias, a function and changing directory; all bodies of up to 3 (4) lines over {succeeding command, failing command, exit 5, set -e, function call with status 4, source with status 2} at top level and inside an if body followed by a further command. The real binary must show the reference frames, persistence, record sequence and process exit status.',
+        note='Unquoted references may be split at blanks; functions are called after their definition; two open known findings (values containing a quote character or a dollar sign are re-parsed after substitution).',
+        ref='DESIGN.md §4 C15'),
     'C16': dict(
         engine='E1 bounded-exhaustive input sweep (in-process, differential between entry paths) + real binary through four entry points',
         technique='bounded-exhaustive enumeration of all lines over a 14-symbol alphabet with a differential oracle between the -c path and the script path of the real code; entry-point replay of bounded line sets through the real binary',
